@@ -246,6 +246,13 @@ def decompile_inproc(arg: dict) -> dict:
     infos, ops, coros = rsjson.rs_from_json(arg["rs"])
     s = SETTINGS["settings"]
     dm = s["dungeon_mode_constants"]
+    # the command always runs in a fresh process; the decompiler's module-level memo table is keyed by id(graph) and can
+    # hold entries of earlier (garbage-collected) graphs in a long-lived worker (C11's business) — start from the fresh state
+    try:
+        from explorerscript.ssb_converting.decompiler.graph_building import graph_utils
+        graph_utils.find_first_common_next_vertex_in_edges_cache.clear()
+    except Exception:  # noqa
+        pass
     try:
         text, _sm = ExplorerScriptSsbDecompiler(infos, ops, coros, s["performance_progress_list_var_name"],
                                                DungeonModeConstants(dm["closed"], dm["open"], dm["request"], dm["open_request"])).convert()
